@@ -122,7 +122,10 @@ impl Scanner {
 
     fn next_nstr(&mut self, n: usize) -> &str {
         let start = self.indices[self.pos];
-        let end = (start + n).min(self.source.len());
+        let end = match self.indices.get(self.pos + n) {
+            Some(&end) => end,
+            None => self.source.len(),
+        };
         let part = &self.source.as_bytes()[start..end];
         #[cfg(gosyn_verif)]
         if std::str::from_utf8(part).is_err() {
